@@ -28,7 +28,7 @@ C04_pass_total_partial C04_pass_total_unconditional C04_pass_total_counterexampl
 C04_chain_total_partial C04_chain_panic_blames C04_chain_total_counterexample
 C04_xform_total_partial C04_xform_total_counterexample
 C04_config_total_partial C04_config_total_counterexample C04_config_malformed_as C04_hint_object_prefix_panicked
-C04_fromAST_total_partial C04_fromAST_total_counterexample C04_fromAST_diverges_on_alias_cycle
+C04_fromAST_total_partial C04_fromAST_total_counterexample C04_fromAST_dangling_panicked_before_fix C04_fromAST_diverges_on_alias_cycle
 C04_option_actions_total_partial C04_option_actions_total_counterexample
 C04_parse_total_openapi_partial C04_parse_total_openapi_counterexample C04_parse_openapi_witnesses
 C04_parse_total_jsonschema_partial C04_parse_total_jsonschema_counterexample C04_parse_jsonschema_witness
@@ -247,6 +247,18 @@ def main():
             c.known_hit[kf["id"]] += len(items) - 1
         else:
             unknown.append((key, items))
+    # confirmation: an unmatched class must reproduce when its first case runs alone with a generous
+    # watchdog (filters workers killed from outside / timeouts on a loaded machine)
+    confirmed, flaky = [], []
+    for key, items in unknown:
+        text, res, case = items[0]
+        again = rerun(hb, case) if case else None
+        if again is not None and again["outcome"] in ("ok", "err"):
+            flaky.append(("%s %s frame=%s msg=%s" % key, res["id"]))
+        else:
+            confirmed.append((key, items))
+    c.cov["flaky_not_reproduced"] = flaky
+    unknown = confirmed
     c.cov["failure_classes"] = len(classes)
     c.cov["oracle_failures"] = sum(len(v) for v in classes.values())
     c.cov["samples"] = [{"class": "%s %s %s | %s" % k, "count": len(v), "first": v[0][1]["id"]} for k, v in sorted(classes.items(), key=lambda kv: -len(kv[1]))[:12]]
@@ -274,6 +286,31 @@ def main():
     c.finish("cd /verif/lean && lake build Cog.Props.C04 drv && lake env lean <#print axioms of the C04 theorems>; harness c04-run",
              "one evaluation = one case executed on the real code in a worker process (a pipeline run from files + YAML config, or one generated IR through ~34 operations, or one YAML pass/veneer document on a generated IR); non-trivial = distinct (stream, result text); failure classes = (route, outcome, top cog frame, message class)",
              "proof for the IR / configuration / builder layer under wfIR and named decidable conditions, with kernel-checked counterexamples for each unconditional statement; crash-stream exploration for bytes->library, CUE, jennies")
+
+
+def rerun(hb, case):
+    tmp = os.path.join(C04_WORK, "rerun_%d.jsonl" % os.getpid())
+    open(tmp, "w").write(json.dumps(case) + "\n")
+    try:
+        rows, _ = run_stream_kw(hb, tmp)
+    except Exception as e:  # noqa
+        log("rerun failed:", e)
+        return None
+    finally:
+        if os.path.exists(tmp):
+            os.remove(tmp)
+    return rows[0][0] if rows else None
+
+
+def run_stream_kw(hb, tmp):
+    args = [hb, "c04-exec", "work=" + C04_WORK, "workers=1", "timeout=150", "in=" + tmp]
+    p = subprocess.run(args, capture_output=True, text=True, timeout=900, cwd=REPO, env=GOENV)
+    rows = []
+    for l in p.stdout.split("\n"):
+        parts = l.split("\t")
+        if len(parts) >= 4:
+            rows.append((json.loads(parts[1]), parts[2], None))
+    return rows, p.stderr
 
 
 def shrink(hb, case, want=None):
